@@ -29,3 +29,15 @@ func (sc *SecretManagerClient) VerifCacheState() (workload *security.SecretItem,
 	sc.configTrustBundleMutex.RUnlock()
 	return sc.cache.GetWorkload(), sc.cache.GetRoot(), tb
 }
+
+// VerifWrapRotateTime wraps the package-level rotateTime variable (called first thing in registerSecret)
+// so that the harness gets a controllable point between generateNewSecret and the cache update.
+// The returned function restores the previous value.
+func VerifWrapRotateTime(before func()) (restore func()) {
+	orig := rotateTime
+	rotateTime = func(secret security.SecretItem, graceRatio float64, graceRatioJitter float64) time.Duration {
+		before()
+		return orig(secret, graceRatio, graceRatioJitter)
+	}
+	return func() { rotateTime = orig }
+}
